@@ -253,10 +253,11 @@ func genC10Clean(t *rapid.T) *Case {
 			}
 			ds = append(ds, prop+rapid.SampledFrom([]string{":", ": "}).Draw(t, "colon")+val)
 		}
-		st := strings.Join(ds, rapid.SampledFrom([]string{";", "; "}).Draw(t, "semi"))
-		if rapid.Bool().Draw(t, "trail") {
-			st += ";"
-		}
+		// styles as authors and mail clients write them: one declaration per line, white space of any
+		// kind around the separators and at both ends
+		st := strings.Join(ds, rapid.SampledFrom([]string{";", "; ", ";", "; ", ";\n", ";\n  ", " ; ", ";\t"}).Draw(t, "semi"))
+		st += rapid.SampledFrom([]string{"", ";", "", ";", "; ", ";\n", ";\t", "\n", " \n ", ";\r\n", "\t", ";\f"}).Draw(t, "trail")
+		st = rapid.SampledFrom([]string{"", "", "", " ", "\n", "\n\t"}).Draw(t, "lead") + st
 		sb.WriteString("<" + el + ` id="i" style="` + escAttr(st, '"') + `">t</` + el + ">")
 	}
 	return &Case{Spec: spec, Input: BStr(sb.String()), Kind: "clean"}
